@@ -221,6 +221,47 @@ def _handlers(fn: ast.FunctionDef, what: str):
     return tries[0]
 
 
+def parent_evidence():
+    """Does lint_files_parallel gather the cross-file evidence in the parent before _finalize_rules(), and does that loop
+    decide built-in exclusion / ignore on the same path expression as lint_file does?"""
+    f = _orch("lint_files_parallel")
+    stmts = [ast.unparse(st) for st in _body(f)]
+    try:
+        a = stmts.index("violations = self._execute_parallel_linting(file_paths, effective_workers)")
+        z = stmts.index("violations.extend(self._finalize_rules())")
+    except ValueError as e:
+        raise Unsupported(f"parallel branch of lint_files_parallel changed: {stmts[-4:]}") from e
+    between = stmts[a + 1:z]
+    cls = find_class(parse(CORE), "Orchestrator")
+    has_fn = any(isinstance(n, ast.FunctionDef) and n.name == "_collect_cross_file_evidence" for n in cls.body)
+    if between == [] and not has_fn:
+        return defn("parent_collects_evidence", "bool", "false") + defn("parent_exclusion_like_lint_file", "bool", "true")
+    if between != ["self._collect_cross_file_evidence(file_paths)"] or not has_fn:
+        raise Unsupported(f"statements between the worker phase and _finalize_rules: {between}")
+
+    def tests(fn):
+        ex = [ast.unparse(n.args[0]) for n in ast.walk(fn) if isinstance(n, ast.Call) and ast.unparse(n.func) == "_is_hardcoded_excluded" and len(n.args) == 1]
+        ig = [ast.unparse(n.args[0]) for n in ast.walk(fn) if isinstance(n, ast.Call) and ast.unparse(n.func) == "self.ignore_parser.is_ignored" and len(n.args) == 1]
+        if len(ex) != 1 or len(ig) != 1:
+            raise Unsupported(f"{fn.name}: exclusion/ignore tests {ex} {ig}")
+        if ex[0] not in ("file_path", "self._path_inside_project(file_path)"):
+            raise Unsupported(f"{fn.name}: exclusion decided on {ex[0]}")
+        return ex[0], ig[0]
+    g = _orch("_collect_cross_file_evidence")
+    loops = [n for n in g.body if isinstance(n, ast.For)]
+    if len(loops) != 1 or ast.unparse(loops[0].iter) != "file_paths" or ast.unparse(loops[0].target) != "file_path":
+        raise Unsupported("_collect_cross_file_evidence: loop over file_paths")
+    rules = [ast.unparse(st.value) for st in g.body if isinstance(st, ast.Assign) and ast.unparse(st.targets[0]) == "rules"]
+    if rules != ["[r for r in self.registry.list_all() if type(r).finalize is not BaseLintRule.finalize]"]:
+        raise Unsupported(f"_collect_cross_file_evidence: rule selection {rules}")
+    pe, pi = tests(g)
+    le, li = tests(_orch("lint_file"))
+    if pi != li:
+        raise Unsupported(f"ignore test decided on {pi} in the parent loop, on {li} in lint_file")
+    return (defn("parent_collects_evidence", "bool", "true")
+            + defn("parent_exclusion_like_lint_file", "bool", "true" if pe == le else "false"))
+
+
 def _reraise_then_swallow(t: ast.Try, what: str):
     """handlers: zero or more `except T: raise`, then one handler that logs and does `return []`"""
     if not t.handlers or any(h.type is None for h in t.handlers):
@@ -417,6 +458,7 @@ ITEMS = [
     ("par_threshold", par_threshold),
     ("par_fallback", par_fallback),
     ("par_empty_guard", par_empty_guard),
+    ("parent_evidence", parent_evidence),
     ("worker", worker),
     ("extract", extract),
     ("safe_check", safe_check),
